@@ -86,19 +86,6 @@ BBox(cs) == IF Len(cs) = 0 THEN <<>>
 \* X02 (extension): HasDimensions.  Dim is PointSet!Dim; the boundary dimension follows OGC-SFA: points have no boundary,
 \* an open curve has its two end points, a closed one none, multi-curves follow the mod-2 rule, areas have curves.
 IsEmptyG(g) == Len(Coords(g)) = 0
-OddEndpoints(ls) == \E i \in DOMAIN ls : Len(ls[i]) >= 2 /\ ls[i][1] # ls[i][Len(ls[i])] /\
-    \E e \in {ls[i][1], ls[i][Len(ls[i])]} :
-        ((Cardinality({j \in DOMAIN ls : Len(ls[j]) >= 2 /\ ls[j][1] # ls[j][Len(ls[j])] /\ ls[j][1] = e})
-          + Cardinality({j \in DOMAIN ls : Len(ls[j]) >= 2 /\ ls[j][1] # ls[j][Len(ls[j])] /\ ls[j][Len(ls[j])] = e})) % 2) = 1
-RECURSIVE BDim(_)
-BDim(g) ==
-    CASE g.t \in {"Point", "MultiPoint"} -> -1
-      [] g.t = "Line" -> IF g.a = g.b THEN -1 ELSE 0
-      [] g.t = "LineString" -> IF Dim(g) <= 0 \/ g.cs[1] = g.cs[Len(g.cs)] THEN -1 ELSE 0
-      [] g.t = "MultiLineString" -> IF OddEndpoints(g.ls) THEN 0 ELSE -1
-      [] g.t \in {"Polygon", "MultiPolygon", "Rect", "Triangle"} -> IF Dim(g) <= 0 THEN -1 ELSE Dim(g) - 1
-      [] g.t = "GeometryCollection" -> IF Len(g.gs) = 0 THEN -1 ELSE SetMax({BDim(g.gs[i]) : i \in DOMAIN g.gs})
-
 Sq(x, y, s) == << <<x, y>>, <<x + s, y>>, <<x + s, y + s>>, <<x, y + s>>, <<x, y>> >>
 Pool == <<
     Pt(<<1, 2>>), MPt(<< <<0, 0>>, <<2, 1>>, <<0, 0>> >>), MPt(<<>>),
